@@ -794,6 +794,23 @@ fn mode_kern_worm(a: &Args, g: &mut SplitMix64) {
     }
 }
 
+/// search mode (not part of the check): worm kernels with zero biases against the balance oracle
+fn mode_search_worm(a: &Args, g: &mut SplitMix64) {
+    let ncases = if a.thorough { 400 } else { 60 };
+    for c in 0..ncases {
+        let n = 2 + (c % 3) as usize;
+        let mut m = small_model(g, n, false);
+        m.biases = vec![0.0; n];
+        if c % 2 == 0 {
+            for e in m.edges.iter_mut() {
+                e.1 = if e.1 > 0.0 { 1.0 } else { -1.0 };
+            }
+        }
+        let beta = g.dyadic(0, 2, 4);
+        kern_case(&m, beta, false, 2, true);
+    }
+}
+
 // ------------------------------------------------------------------------------------------------
 // witness: fixed inputs for the findings
 // ------------------------------------------------------------------------------------------------
@@ -831,6 +848,7 @@ fn main() {
         "imp" => mode_imp(&a, &mut g),
         "kern" => mode_kern(&a, &mut g),
         "kernworm" => mode_kern_worm(&a, &mut g),
+        "search-worm" => mode_search_worm(&a, &mut g),
         "witness-worm" => mode_witness_worm(),
         "witness-imp" => mode_witness_imp(),
         m => panic!("unknown mode {}", m),
